@@ -23,6 +23,15 @@ def _work(task: Task) -> Dict[str, Any]:
         res = f(**kw)
         res.setdefault("model", kw.get("cfg_name") or kw.get("model") or fn)
         res.setdefault("task_s", round(time.time() - t0, 2))
+        try:
+            import gc
+
+            import jax
+
+            jax.clear_caches()
+            gc.collect()
+        except Exception:  # noqa: BLE001
+            pass
         return res
     except Exception:  # noqa: BLE001 - reported, never swallowed
         return {
@@ -54,7 +63,7 @@ def run_tasks(rep: Reporter, tasks: Sequence[Task], procs: int = 0) -> None:
             rep.add_model(r)
         return
     ctx = mp.get_context("spawn")
-    with ctx.Pool(processes=procs) as pool:
+    with ctx.Pool(processes=procs, maxtasksperchild=4) as pool:  # recycle workers: XLA executables accumulate
         for r in pool.imap_unordered(_work, list(tasks), chunksize=1):
             if verbose:
                 print(f"  .. {r.get('model')} {r.get('task_s')}s states={r.get('states')} "
